@@ -10,6 +10,7 @@ old = {c["property_id"]: c for c in M["checks"]}
 ALL = [json.loads(l)["id"] for l in open(os.path.join(ROOT, "properties.jsonl"))]
 
 CONN_TEXT = {
+    "C14": "SETTINGS/PING acknowledgements: Lean theorems over EVERY history of the connection model (instrumented poll with an erasure theorem): acknowledged SETTINGS are a prefix of the received ones, at most one owed, PING payloads answered in order with their own payload, values applied exactly at the ACK, local settings enforced at the peer's ACK, unsolicited SETTINGS ACK = PROTOCOL_ERROR; correspondence of the real connection with the model; ack monitors (Spec/Wire.lean C14) on the real wire trace",
     "C05": "concurrent-stream limits: Lean theorems on the counters' guards (and counting invariants of the connection model where present in H2V/Props/C05.lean); correspondence of the real connection with the model incl. all counters; monitors: concurrency rule on the real wire trace (Spec/Wire.lean C05) and counter-vs-store invariants on the real state after every operation (Spec/StateInv.lean)",
     "C16": "send-capacity API: Lean theorems on capacity assignment arithmetic (and send-ledger invariants of the connection model where present); correspondence incl. capacity answers and wake-ups; assigned-capacity ledger checked on the real state after every operation (Spec/StateInv.lean C16)",
     "C18": "bounded state: Lean theorems on the quota guards (reset memory, library resets, tiny-DATA budget) (and bounds of the connection model where present); correspondence; quota invariants on the real state after every operation (Spec/StateInv.lean C18)",
